@@ -84,15 +84,13 @@ func (mgr *GCMgr) UpdateCollision(bkt *Bucket, ki *KeyInfo, oldPos, newPos Posit
 }
 
 func (mgr *GCMgr) UpdateHtreePos(bkt *Bucket, ki *KeyInfo, oldPos, newPos Position) {
-	// TODO: should be a api of htree to be atomic
-	meta, _, ok := bkt.htree.get(ki)
-	if !ok {
-		logger.Warnf("old key removed when updating pos bucket %d %s %#v %#v",
-			bkt.ID, ki.StringKey, meta, oldPos)
-		return
-	}
+	// the entry is repointed only if it still refers to the record that was
+	// copied: a set or delete acknowledged since the newest-check must win
 	vhook.PointS("gc.updatepos.mid", ki.StringKey)
-	bkt.htree.set(ki, meta, newPos)
+	if !bkt.htree.updatePos(ki, oldPos, newPos) {
+		logger.Warnf("key changed while gc was moving it, bucket %d %s %#v",
+			bkt.ID, ki.StringKey, oldPos)
+	}
 }
 
 func (mgr *GCMgr) BeforeBucket(bkt *Bucket, startChunkID, endChunkID int, merge bool) {
